@@ -868,7 +868,7 @@ theorem readText_emit (t : Tree) (s : String) (d : Doc) (hwf : WFTree t) (he : e
 /-- **write → text → read.**  `t` is any lexical rendering of the document `write c` builds (`treeDoc t = some d`: its
 float lexemes denote the document's numbers) inside the class; reading the written text gives the chart with every
 time truncated to whole milliseconds. -/
-theorem qua_write_read_text (c : Chart) (d : Doc) (t : Tree) (s : String) (hm : MetaOk c.info)
+theorem qua_read_write_text (c : Chart) (d : Doc) (t : Tree) (s : String) (hm : MetaOk c.info)
     (hw : Reamber.Qua.write c = .ok d) (hwf : WFTree t) (hd : treeDoc t = some d) (he : emitQua t = some s) :
     readText s = some (.ok (Reamber.Qua.Spec.quantize c)) := by
   rw [readText_emit t s d hwf he hd]
@@ -889,7 +889,7 @@ theorem qua_write_denotes_text (c : Chart) (d : Doc) (t : Tree) (s : String) (hm
 
 /-- **text → read → write → text → read.**  No hypothesis on the chart beyond having been read from a text of the
 subset. -/
-theorem qua_read_write_text (s : String) (c : Chart) (d' : Doc) (t' : Tree) (s' : String)
+theorem qua_write_read_text (s : String) (c : Chart) (d' : Doc) (t' : Tree) (s' : String)
     (hr : readText s = some (.ok c)) (hw : Reamber.Qua.write c = .ok d') (hwf : WFTree t')
     (hd : treeDoc t' = some d') (he : emitQua t' = some s') :
     readText s' = some (.ok (Reamber.Qua.Spec.quantize c)) := by
